@@ -51,6 +51,16 @@ fn us(ns: i128) -> i64 {
     (ns / 1000) as i64
 }
 
+/// the clock as the library last read it before the interaction logged at `i`: the stamp of the preceding entry, skipping
+/// the marker that this very interaction's clock step logs when it carries a wall-clock correction
+fn pre_stamp(h: &Hist, i: usize) -> (i128, i128) {
+    let mut j = i - 1;
+    while j > 0 && matches!(h.log[j], Op::Clock { .. }) {
+        j -= 1;
+    }
+    h.stamps[j]
+}
+
 pub fn check_history(h: &Hist) -> Result<(bool, Vec<&'static str>), Failure> {
     let log = &h.log;
     let evals = evaluate(h);
@@ -63,6 +73,11 @@ pub fn check_history(h: &Hist) -> Result<(bool, Vec<&'static str>), Failure> {
     let mut m = Rec::default();
     // reporting of the previous boot's reboot wait
     let mut pending_report = false;
+    // compute_next_update_time is also asked inside the reboot wait; only the one at the top of the run loop follows a report attempt
+    let mut in_reboot_wait = false;
+    // the finish time this state machine found at start and still owes a report for (a later install in the same life
+    // writes a record of its own, which is the next boot's to report)
+    let mut pending_finish: Option<i64> = None;
     let mut start_mono: i128 = 0;
     let mut reported_this_life = 0;
     let mut plans_seen_in_earlier_lives: Vec<String> = vec![];
@@ -79,6 +94,8 @@ pub fn check_history(h: &Hist) -> Result<(bool, Vec<&'static str>), Failure> {
                 m = decode(&committed_at(log, i, &h.script));
                 plans_seen_in_earlier_lives.extend(plans_this_life.drain(..));
                 pending_report = !*oneshot && m.finish_us.is_some() && m.target.as_deref() == Some(h.script.os_version.as_str());
+                pending_finish = if pending_report { m.finish_us } else { None };
+                in_reboot_wait = false;
                 // an invalid app set ends run() before anything else
                 start_mono = h.stamps[i].1;
                 reported_this_life = 0;
@@ -86,17 +103,19 @@ pub fn check_history(h: &Hist) -> Result<(bool, Vec<&'static str>), Failure> {
                     classes.push(if pending_report { "restart_on_target_version" } else { "restart_on_other_version" });
                 }
             }
+            Op::Took(EventView::State(StateView::WaitingForReboot)) => in_reboot_wait = true,
+            Op::Took(EventView::State(StateView::Idle)) => in_reboot_wait = false,
             Op::NextTime { .. } => {
                 // loop top: if a report is pending and the clocks are consistent it must have been made by now
-                if pending_report && h.stamps[i - 1].1 >= start_mono {
-                    let now_wall = h.stamps[i - 1].0;
-                    let now_mono = h.stamps[i - 1].1;
-                    let f = m.finish_us.unwrap() as i128 * 1000;
+                if pending_report && !in_reboot_wait && pre_stamp(h, i).1 >= start_mono {
+                    let now_wall = pre_stamp(h, i).0;
+                    let now_mono = pre_stamp(h, i).1;
+                    let f = pending_finish.unwrap() as i128 * 1000;
                     let expect = if now_wall >= f && (now_wall - f) >= (now_mono - start_mono) { Some(now_wall - f - (now_mono - start_mono)) } else { None };
                     if let Some(d) = expect {
                         return Err(failure(
                             "waited-for-reboot-not-reported",
-                            format!("a state machine started on the target version {:?} with finish time {} µs and consistent clocks did not report the waited-for-reboot duration ({} ns)", m.target, m.finish_us.unwrap(), d),
+                            format!("a state machine started on the target version {:?} with finish time {} µs and consistent clocks did not report the waited-for-reboot duration ({} ns)", m.target, pending_finish.unwrap(), d),
                             h,
                             around,
                         ));
@@ -107,7 +126,7 @@ pub fn check_history(h: &Hist) -> Result<(bool, Vec<&'static str>), Failure> {
             }
             Op::Metric(MetricView::WaitedForReboot(d)) => {
                 // clock as the library read it: before this metric's own interaction
-                let (now_wall, now_mono) = h.stamps[i - 1];
+                let (now_wall, now_mono) = pre_stamp(h, i);
                 if !pending_report {
                     return Err(failure(
                         "waited-for-reboot-unexpected",
@@ -116,7 +135,7 @@ pub fn check_history(h: &Hist) -> Result<(bool, Vec<&'static str>), Failure> {
                         around,
                     ));
                 }
-                let f = m.finish_us.unwrap() as i128 * 1000;
+                let f = pending_finish.unwrap() as i128 * 1000;
                 let want = now_wall - f - (now_mono - start_mono);
                 if now_wall < f || want < 0 || d.as_nanos() as i128 != want {
                     return Err(failure(
@@ -128,17 +147,33 @@ pub fn check_history(h: &Hist) -> Result<(bool, Vec<&'static str>), Failure> {
                 }
                 pending_report = false;
                 reported_this_life += 1;
-                m.finish_us = None;
-                m.target = None;
                 classes.push("waited_for_reboot_reported");
-                // ... and clears the record: the next commit shows neither key
+                let newer_record = m.finish_us != pending_finish;
+                pending_finish = None;
+                if !newer_record {
+                    m.finish_us = None;
+                    m.target = None;
+                } else {
+                    classes.push("late_report_with_newer_record");
+                    nontrivial = true;
+                }
+                // ... and clears the record it reported: the next commit shows neither key - unless an install finished
+                // in this life meanwhile: that record belongs to the next boot and must survive the late report
                 if let Some(k) = log[i..].iter().position(|o| matches!(o, Op::Committed { .. } | Op::NextTime { .. } | Op::MachineDropped | Op::Crash { .. })) {
                     if matches!(log[i + k], Op::Committed { .. }) {
                         let c = decode(&committed_at(log, i + k + 1, &h.script));
-                        if c.finish_us.is_some() || c.target.is_some() {
+                        if !newer_record && (c.finish_us.is_some() || c.target.is_some()) {
                             return Err(failure("reboot-record-not-cleared", format!("after reporting, the reboot record is still stored: {c:?}"), h, around));
                         }
-                    } else if matches!(log[i + k], Op::NextTime { .. }) {
+                        if newer_record && (c.finish_us != m.finish_us || c.target != m.target) {
+                            return Err(failure(
+                                "newer-reboot-record-cleared-by-late-report",
+                                format!("the report of the previous boot's reboot wait (delayed by inconsistent clocks) removed the finish record of an install made since: storage now holds {:?} / {:?}, the record of that install is {:?} / {:?}; the state machine started on its target version will report nothing", c.finish_us, c.target, m.finish_us, m.target),
+                                h,
+                                around,
+                            ));
+                        }
+                    } else if matches!(log[i + k], Op::NextTime { .. }) && !newer_record {
                         return Err(failure("reboot-record-not-cleared", "after reporting, the record was not cleared and committed before continuing".to_string(), h, around));
                     }
                 }
@@ -270,8 +305,8 @@ pub fn check_history(h: &Hist) -> Result<(bool, Vec<&'static str>), Failure> {
                         }
                         m.finish_us = Some(us(finish));
                         m.target = want_target;
-                        // a fresh record must not be reported by THIS life
-                        pending_report = false;
+                        // (this fresh record is the next boot's to report; a report still owed for the record found at
+                        // start stays owed)
                         classes.push("finish_recorded");
                     }
                 }
@@ -363,7 +398,12 @@ pub fn gen_case(t: &mut Tape) -> (Script, Vec<LifePlan>) {
         s.reboot_needed.push(!t.chance(1, 4));
         s.reboot_allowed.push((!t.chance(1, 4), true));
     }
-    s.clock = t.vec_of(10, |t| ClockStep { advance_ns: *t.pick(&[1_000_003u64, 1, 999, 1_000_000_000, 7_000_000_000]), wall_jump: None });
+    // the wall clock may be corrected while a state machine runs (not yet synchronised at boot, stepped later)
+    let start_wall = s.start_wall_ns;
+    s.clock = t.vec_of(40, |t| ClockStep {
+        advance_ns: *t.pick(&[1_000_003u64, 1, 999, 1_000_000_000, 7_000_000_000]),
+        wall_jump: if t.chance(1, 5) { Some(start_wall + *t.pick(&[2 * 86_400_000_000_000i128, 2 * 86_400_000_000_000 + 3_600_000_000_000, 3 * 86_400_000_000_000, -7_200_000_000_000, 3_000_000_000])) } else { None },
+    });
     (s, lives)
 }
 
